@@ -322,7 +322,10 @@ namespace {
             // patterns of protection: none, first only, all but one (bounded by hazard count), last only;
             // DHP (unbounded guards) with a full retired block: 4 = four fifths protected, 5 = all but the last, 6 = all
             // (a pass that frees less than a quarter of a full array makes DHP extend the array)
-            for ( int pat = 0; pat < ( cfg.dhp && n >= 255 ? 7 : 4 ); ++pat ) {
+            // 7, 8 = no retired object is protected, but a guard is held on a live, never retired object with a lower (7) / higher (8) address
+            for ( int pat = 0; pat < 9; ++pat ) {
+                if ( pat >= 4 && pat <= 6 && !( cfg.dhp && n >= 255 )) continue;
+                Obj* decoy_lo = pat == 7 ? alloc_obj() : nullptr;
                 std::vector<Obj*> objs;
                 for ( size_t i = 0; i < n; ++i ) { Obj* o = alloc_obj(); if ( !o ) return; objs.push_back( o ); }
                 std::vector<uint32_t> ids;
@@ -334,10 +337,15 @@ namespace {
                 else if ( pat == 4 ) { for ( size_t i = 0; i < n - n / 5; ++i ) prot[i] = 1; }
                 else if ( pat == 5 ) { for ( size_t i = 0; i + 1 < n; ++i ) prot[i] = 1; }
                 else if ( pat == 6 ) { for ( size_t i = 0; i < n; ++i ) prot[i] = 1; }
+                Obj* decoy_hi = pat == 8 ? alloc_obj() : nullptr;
+                Obj* decoy = decoy_lo ? decoy_lo : decoy_hi;
+                if ( pat >= 7 && !decoy ) return;
                 size_t nprot = 0; for ( char c : prot ) nprot += c;
                 if ( pat < 4 && nprot > hz ) continue;
                 {
                     std::unique_ptr<Guard[]> guards( nprot ? new Guard[nprot] : nullptr );
+                    std::unique_ptr<Guard> decoy_guard;
+                    if ( decoy ) { decoy_guard.reset( new Guard ); decoy_guard->assign( decoy ); }
                     size_t gi = 0;
                     for ( size_t i = 0; i < n; ++i ) if ( prot[i] ) guards[gi++].assign( objs[i] );
                     for ( size_t i = 0; i < n; ++i ) {
@@ -372,6 +380,7 @@ namespace {
                 }
                 // guards released: a second scan must free the rest
                 GC::scan();
+                if ( decoy && decoy->heap ) { decoy->~Obj(); ::operator delete( decoy ); }
                 for ( size_t i = 0; i < n; ++i ) {
                     if ( run.ledger[ids[i]].disposed.load() != 1 ) {
                         violation( "C03", "eager-after-release-not-disposed:" + run.variant,
